@@ -1,1 +1,823 @@
-fn main() { eprintln!("engine not built yet"); std::process::exit(2); }
+//! C12 — `Bitset<N>` agrees with a set of indices.
+//!
+//! Form R (reachable-state closure), for every capacity N of the tier:
+//!
+//! 1. closure BFS over the REAL `Bitset<N>` from `new()`, `default()`, `from_u64(w)` (six words) under
+//!    `set(p)`, `remove(p)`, `flip(p)` for every p of the boundary alphabet P_N, `clear()`, `!x`, and
+//!    clone-and-replace.  The search runs until no new state appears, so the verdict covers histories
+//!    of any length over that alphabet.  After EVERY transition the complete observable surface is
+//!    compared with the model (`Vec<bool>` of length 64N): `test(i)` for every i, `count()`,
+//!    `iter_bits()` (exact ascending list, at most 64N+1 items pulled), `==` / `!=` against a second
+//!    bitset built from the model by `set` and against one-bit neighbours, `Display`, `Debug`.
+//! 2. a bounded sweep with the FULL position alphabet 0..64N (every index, not only the boundary ones)
+//!    to a small stated depth — labelled as bounded, not a closure.
+//! 3. the binary operators `& | ^` (on references) and `&= |= ^=` on ALL ordered pairs of the first
+//!    K states of the closure in BFS order (K = min(states, 1500); the cap is reported).
+//!
+//! Indices >= 64N are outside the property and are never passed.
+
+use rayon::prelude::*;
+use rlib_bitset::Bitset;
+use serde::{Deserialize, Serialize};
+use std::collections::{BTreeSet, HashSet, VecDeque};
+use std::sync::atomic::{AtomicU64, Ordering};
+use vcore::*;
+
+/// Bumped on every call into the code under test; a watchdog turns a stall (a call that never returns,
+/// e.g. an iterator looping inside `next`) into a machinery failure (exit 2) instead of a hung check.
+static PROGRESS: AtomicU64 = AtomicU64::new(0);
+
+const INIT_WORDS: [u64; 6] = [0, 1, 1 << 63, u64::MAX, 0xAAAA_AAAA_AAAA_AAAA, 0x8000_0000_0000_0001];
+const PAIR_CAP: usize = 1500;
+const OPS: [&str; 6] = ["and", "or", "xor", "and_assign", "or_assign", "xor_assign"];
+
+#[derive(Clone, Debug, Serialize, Deserialize, PartialEq)]
+enum Act {
+    New,
+    Default,
+    FromU64(u64),
+    Set(usize),
+    Remove(usize),
+    Flip(usize),
+    Clear,
+    Not,
+    CloneReplace,
+}
+
+fn kind_of(a: &Act) -> &'static str {
+    match a {
+        Act::New => "new",
+        Act::Default => "default",
+        Act::FromU64(_) => "from_u64",
+        Act::Set(_) => "set",
+        Act::Remove(_) => "remove",
+        Act::Flip(_) => "flip",
+        Act::Clear => "clear",
+        Act::Not => "not",
+        Act::CloneReplace => "clone",
+    }
+}
+
+/// Boundary alphabet P_N of DESIGN §4 C12.
+fn boundary_positions(n: usize) -> Vec<usize> {
+    let top = 64 * n;
+    let mut v: Vec<usize> = [0, 1, 31, 62, 63, 64, 65, 127, 128, top - 2, top - 1].into_iter().filter(|&p| p < top).collect();
+    v.sort();
+    v.dedup();
+    v
+}
+
+fn init_menu() -> Vec<Act> {
+    let mut v = vec![Act::New, Act::Default];
+    v.extend(INIT_WORDS.iter().map(|&w| Act::FromU64(w)));
+    v
+}
+
+fn action_menu(pos: &[usize]) -> Vec<Act> {
+    let mut v = vec![];
+    v.extend(pos.iter().map(|&p| Act::Set(p)));
+    v.extend(pos.iter().map(|&p| Act::Remove(p)));
+    v.extend(pos.iter().map(|&p| Act::Flip(p)));
+    v.push(Act::Clear);
+    v.push(Act::Not);
+    v.push(Act::CloneReplace);
+    v
+}
+
+// ---------------------------------------------------------------------------------------------
+// the reference model: a plain vector of booleans
+
+fn model_init(n: usize, a: &Act) -> Option<Vec<bool>> {
+    let mut m = vec![false; 64 * n];
+    match a {
+        Act::New | Act::Default => {}
+        Act::FromU64(w) => {
+            for i in 0..64 {
+                m[i] = (w >> i) & 1 == 1;
+            }
+        }
+        _ => return None,
+    }
+    Some(m)
+}
+
+fn model_apply(m: &mut [bool], a: &Act) {
+    match *a {
+        Act::Set(p) => m[p] = true,
+        Act::Remove(p) => m[p] = false,
+        Act::Flip(p) => m[p] = !m[p],
+        Act::Clear => m.iter_mut().for_each(|b| *b = false),
+        Act::Not => m.iter_mut().for_each(|b| *b = !*b),
+        Act::CloneReplace => {}
+        Act::New | Act::Default | Act::FromU64(_) => unreachable!(),
+    }
+}
+
+fn model_string(m: &[bool]) -> String {
+    m.iter().map(|&b| if b { '1' } else { '0' }).collect()
+}
+
+/// Bit i of the set -> bit (i mod 64) of word i div 64 (only a compact notation for patterns).
+fn model_words(m: &[bool]) -> Vec<u64> {
+    let mut w = vec![0u64; m.len() / 64];
+    for (i, &b) in m.iter().enumerate() {
+        if b {
+            w[i / 64] |= 1u64 << (i % 64);
+        }
+    }
+    w
+}
+
+fn hex(w: &[u64]) -> String {
+    let parts: Vec<String> = w.iter().map(|x| format!("{x:#x}")).collect();
+    format!("[{}]", parts.join(","))
+}
+
+/// Model-only BFS with the same constructor and action order as the explorer: the reachable bit
+/// patterns in BFS order (used to pick the operands of the binary operators deterministically).
+fn model_bfs(n: usize, pos: &[usize]) -> Vec<Vec<bool>> {
+    let menu = action_menu(pos);
+    let mut seen: HashSet<Vec<bool>> = HashSet::new();
+    let mut order: Vec<Vec<bool>> = vec![];
+    let mut queue: VecDeque<Vec<bool>> = VecDeque::new();
+    for a in init_menu() {
+        let m = model_init(n, &a).unwrap();
+        if seen.insert(m.clone()) {
+            order.push(m.clone());
+            queue.push_back(m);
+        }
+    }
+    while let Some(m) = queue.pop_front() {
+        for a in &menu {
+            let mut m2 = m.clone();
+            model_apply(&mut m2, a);
+            if seen.insert(m2.clone()) {
+                order.push(m2.clone());
+                queue.push_back(m2);
+            }
+        }
+    }
+    order
+}
+
+// ---------------------------------------------------------------------------------------------
+// the oracle: every observer of the real bitset against the model
+
+fn render_diff(what: &str, got: &str, exp: &str) -> String {
+    if got.len() != exp.len() {
+        return format!("{what} has {} characters, expected {}", got.len(), exp.len());
+    }
+    let i = got.bytes().zip(exp.bytes()).position(|(a, b)| a != b).unwrap_or(0);
+    format!("{what} shows '{}' at index {i}, the set says '{}'", &got[i..i + 1], &exp[i..i + 1])
+}
+
+/// Err((observer family, message)).  Ok = the Display rendering that was observed (it equals the model string).
+fn oracle<const N: usize>(b: &Bitset<N>, m: &[bool], probe: &[usize]) -> Result<String, (&'static str, String)> {
+    let top = 64 * N;
+    for i in 0..top {
+        let got = b.test(i);
+        if got != m[i] {
+            return Err(("test", format!("test({i}) = {got}, the set says {}", m[i])));
+        }
+    }
+    let members: Vec<usize> = (0..top).filter(|&i| m[i]).collect();
+    let c = b.count();
+    if c != members.len() {
+        return Err(("count", format!("count() = {c}, the set has {} members", members.len())));
+    }
+    let got: Vec<usize> = b.iter_bits().take(top + 1).collect();
+    if got.len() > top {
+        return Err(("iter", format!("iter_bits() yielded more than {top} items (does not terminate); first items {:?}", &got[..8.min(got.len())])));
+    }
+    if got != members {
+        let i = got.iter().zip(members.iter()).position(|(a, b)| a != b).unwrap_or(got.len().min(members.len()));
+        return Err((
+            "iter",
+            format!(
+                "iter_bits() yielded {} items, the set has {}; first difference at position {i}: got {:?}, expected {:?}",
+                got.len(),
+                members.len(),
+                got.get(i),
+                members.get(i)
+            ),
+        ));
+    }
+    let mut other = Bitset::<N>::new();
+    for &i in &members {
+        other.set(i);
+    }
+    if !(*b == other) || *b != other || !(other == *b) {
+        return Err(("eq", "the bitset is not == to a bitset built from the same set by set()".into()));
+    }
+    for &p in probe {
+        if m[p] {
+            other.remove(p);
+        } else {
+            other.set(p);
+        }
+        if *b == other || !(*b != other) || other == *b {
+            return Err(("eq", format!("the bitset compares == to a bitset that differs from it exactly in bit {p}")));
+        }
+        if m[p] {
+            other.set(p);
+        } else {
+            other.remove(p);
+        }
+    }
+    let exp = model_string(m);
+    let d = format!("{}", b);
+    if d != exp {
+        return Err(("display", render_diff("Display", &d, &exp)));
+    }
+    let dbg = format!("{:?}", b);
+    if dbg != exp {
+        return Err(("debug", render_diff("Debug", &dbg, &exp)));
+    }
+    Ok(d)
+}
+
+#[derive(Clone)]
+struct St<const N: usize> {
+    b: Bitset<N>,
+    m: Vec<bool>,
+    /// Display rendering of `b` taken by the oracle right after the last transition (part of the state key)
+    disp: String,
+}
+
+struct Sys<const N: usize> {
+    /// positions used by set / remove / flip
+    pos: Vec<usize>,
+    /// positions of the one-bit-neighbour inequality checks (always the boundary alphabet)
+    probe: Vec<usize>,
+}
+
+impl<const N: usize> Sys<N> {
+    fn boundary() -> Self {
+        Sys { pos: boundary_positions(N), probe: boundary_positions(N) }
+    }
+    fn full() -> Self {
+        Sys { pos: (0..64 * N).collect(), probe: boundary_positions(N) }
+    }
+    fn named(alphabet: &str) -> Self {
+        if alphabet == "full" {
+            Self::full()
+        } else {
+            Self::boundary()
+        }
+    }
+}
+
+fn tag(kind: &str, e: (&'static str, String)) -> String {
+    format!("[{kind}.{}] {}", e.0, e.1)
+}
+
+impl<const N: usize> System for Sys<N> {
+    type State = St<N>;
+    type Action = Act;
+
+    fn inits(&self) -> Vec<Act> {
+        init_menu()
+    }
+
+    fn init(&self, a: &Act) -> Result<St<N>, String> {
+        PROGRESS.fetch_add(1, Ordering::Relaxed);
+        let m = model_init(N, a).ok_or_else(|| "not a constructor".to_string())?;
+        let b = match a {
+            Act::New => Bitset::<N>::new(),
+            Act::Default => <Bitset<N> as Default>::default(),
+            Act::FromU64(w) => Bitset::<N>::from_u64(*w),
+            _ => unreachable!(),
+        };
+        let disp = oracle(&b, &m, &self.probe).map_err(|e| tag(kind_of(a), e))?;
+        Ok(St { b, m, disp })
+    }
+
+    fn actions(&self, _s: &St<N>) -> Vec<Act> {
+        action_menu(&self.pos)
+    }
+
+    fn step(&self, s: &mut St<N>, a: &Act) -> Result<u64, String> {
+        PROGRESS.fetch_add(1, Ordering::Relaxed);
+        let top = 64 * N;
+        match *a {
+            Act::New | Act::Default | Act::FromU64(_) => {
+                eprintln!("machinery: constructor inside a history");
+                std::process::exit(2)
+            }
+            Act::Set(p) | Act::Remove(p) | Act::Flip(p) if p >= top => {
+                eprintln!("machinery: index {p} is outside 0..{top} (outside the property)");
+                std::process::exit(2)
+            }
+            Act::Set(p) => s.b.set(p),
+            Act::Remove(p) => s.b.remove(p),
+            Act::Flip(p) => s.b.flip(p),
+            Act::Clear => s.b.clear(),
+            Act::Not => {
+                let x = s.b.clone();
+                s.b = !x;
+            }
+            Act::CloneReplace => {
+                let c = s.b.clone();
+                if !(c == s.b) || c != s.b {
+                    return Err("[clone.eq] a clone is not == to its original".into());
+                }
+                let (d1, d2) = (format!("{}", c), format!("{}", s.b));
+                if d1 != d2 {
+                    return Err(format!("[clone.display] {}", render_diff("the clone's Display", &d1, &d2)));
+                }
+                s.b = c;
+            }
+        }
+        model_apply(&mut s.m, a);
+        s.disp = oracle(&s.b, &s.m, &self.probe).map_err(|e| tag(kind_of(a), e))?;
+        Ok(fnv(s.disp.as_bytes()))
+    }
+
+    fn canon(&self, s: &St<N>) -> Vec<u8> {
+        let mut k: Vec<u8> = s.m.iter().map(|&b| b as u8).collect();
+        k.push(b'|');
+        k.extend(s.disp.bytes());
+        k
+    }
+
+    fn kind(&self, a: &Act) -> &'static str {
+        kind_of(a)
+    }
+}
+
+// ---------------------------------------------------------------------------------------------
+// binary operators on pairs of reached bit patterns
+
+fn build<const N: usize>(w: &[u64]) -> Bitset<N> {
+    let mut b = Bitset::<N>::new();
+    for i in 0..64 * N {
+        if (w[i / 64] >> (i % 64)) & 1 == 1 {
+            b.set(i);
+        }
+    }
+    b
+}
+
+/// Membership of every index, read through `test`, packed into words.
+fn read_words<const N: usize>(b: &Bitset<N>) -> [u64; N] {
+    let mut w = [0u64; N];
+    for i in 0..64 * N {
+        if b.test(i) {
+            w[i / 64] |= 1u64 << (i % 64);
+        }
+    }
+    w
+}
+
+fn expected_op<const N: usize>(op: usize, wa: &[u64], wb: &[u64]) -> [u64; N] {
+    std::array::from_fn(|k| match op % 3 {
+        0 => wa[k] & wb[k],
+        1 => wa[k] | wb[k],
+        _ => wa[k] ^ wb[k],
+    })
+}
+
+/// One operator on one ordered pair.  Ok = membership words of the result.
+fn pair_case<const N: usize>(op: usize, a: &Bitset<N>, wa: &[u64], b: &Bitset<N>, wb: &[u64]) -> Result<[u64; N], String> {
+    let exp: [u64; N] = expected_op::<N>(op, wa, wb);
+    let res: Bitset<N> = match op {
+        0 => a & b,
+        1 => a | b,
+        2 => a ^ b,
+        3 => {
+            let mut c = a.clone();
+            c &= b;
+            c
+        }
+        4 => {
+            let mut c = a.clone();
+            c |= b;
+            c
+        }
+        _ => {
+            let mut c = a.clone();
+            c ^= b;
+            c
+        }
+    };
+    let got = read_words(&res);
+    if got != exp {
+        return Err(format!("{} of {} and {} gave the set {}, the set operation gives {}", OPS[op], hex(wa), hex(wb), hex(&got), hex(&exp)));
+    }
+    let pc: usize = exp.iter().map(|x| x.count_ones() as usize).sum();
+    if res.count() != pc {
+        return Err(format!("{} of {} and {}: count() of the result = {}, the result set has {pc} members", OPS[op], hex(wa), hex(wb), res.count()));
+    }
+    if read_words(a)[..] != *wa {
+        return Err(format!("{} of {} and {} changed its left operand to {}", OPS[op], hex(wa), hex(wb), hex(&read_words(a))));
+    }
+    if read_words(b)[..] != *wb {
+        return Err(format!("{} of {} and {} changed its right operand to {}", OPS[op], hex(wa), hex(wb), hex(&read_words(b))));
+    }
+    Ok(got)
+}
+
+/// Build the operand for a pattern and read it back: Err if set() on new() does not give the pattern.
+fn build_checked<const N: usize>(w: &[u64]) -> Result<Bitset<N>, String> {
+    match catch(|| {
+        let b = build::<N>(w);
+        let back = read_words(&b);
+        (b, back)
+    }) {
+        Ok((b, back)) if back[..] == *w => Ok(b),
+        Ok((_, back)) => Err(format!("a bitset built from new() by set(i) for every member of {} reads back through test() as {}", hex(w), hex(&back))),
+        Err(p) => Err(format!("building {} from new() by set(i) and reading it back through test() panicked: {p}", hex(w))),
+    }
+}
+
+fn pair_plain<const N: usize>(op: usize, wa: &[u64], wb: &[u64]) -> Result<(), String> {
+    build_checked::<N>(wa)?;
+    build_checked::<N>(wb)?;
+    let r = catch(|| {
+        let (a, b) = (build::<N>(wa), build::<N>(wb));
+        if wa == wb {
+            pair_case::<N>(op, &a, wa, &a, wa)
+        } else {
+            pair_case::<N>(op, &a, wa, &b, wb)
+        }
+    });
+    match r {
+        Ok(Ok(_)) => Ok(()),
+        Ok(Err(m)) => Err(m),
+        Err(p) => Err(format!("{} of {} and {} panicked: {p}", OPS[op], hex(wa), hex(wb))),
+    }
+}
+
+struct RowOut {
+    evals: u64,
+    overlapping: u64,
+    fails: Vec<Option<(usize, String)>>,
+    results: HashSet<u64>,
+}
+
+struct PairReport {
+    operands: usize,
+    pairs: u64,
+    evals: u64,
+    overlapping: u64,
+    distinct_results: u64,
+    /// per operator: first failing (i, j, message) in enumeration order
+    fails: Vec<Option<(usize, usize, String)>>,
+}
+
+/// Err((pattern index, message)) if an operand cannot be constructed faithfully (then no pair is evaluated).
+fn pairs<const N: usize>(pats: &[Vec<u64>]) -> Result<PairReport, (usize, String)> {
+    let mut bs: Vec<Bitset<N>> = vec![];
+    for (i, w) in pats.iter().enumerate() {
+        bs.push(build_checked::<N>(w).map_err(|m| (i, m))?);
+    }
+    let k = pats.len();
+    let rows: Vec<RowOut> = (0..k)
+        .into_par_iter()
+        .map(|i| {
+            let mut out = RowOut { evals: 0, overlapping: 0, fails: vec![None; 6], results: HashSet::new() };
+            for j in 0..k {
+                PROGRESS.fetch_add(1, Ordering::Relaxed);
+                let (wa, wb) = (&pats[i], &pats[j]);
+                let and: [u64; N] = expected_op::<N>(0, wa, wb);
+                if and.iter().any(|&x| x != 0) && and[..] != wa[..] && and[..] != wb[..] {
+                    out.overlapping += 1;
+                }
+                for op in 0..6 {
+                    if out.fails[op].is_some() {
+                        continue;
+                    }
+                    out.evals += 1;
+                    match catch(|| pair_case::<N>(op, &bs[i], wa, &bs[j], wb)) {
+                        Ok(Ok(w)) => {
+                            let bytes: Vec<u8> = w.iter().flat_map(|x| x.to_le_bytes()).collect();
+                            out.results.insert(fnv(&bytes) ^ (op as u64 % 3));
+                        }
+                        Ok(Err(m)) => out.fails[op] = Some((j, m)),
+                        Err(p) => out.fails[op] = Some((j, format!("{} of {} and {} panicked: {p}", OPS[op], hex(wa), hex(wb)))),
+                    }
+                }
+            }
+            out
+        })
+        .collect();
+    let mut rep = PairReport { operands: k, pairs: (k * k) as u64, evals: 0, overlapping: 0, distinct_results: 0, fails: vec![None; 6] };
+    let mut results: HashSet<u64> = HashSet::new();
+    for (i, row) in rows.into_iter().enumerate() {
+        rep.evals += row.evals;
+        rep.overlapping += row.overlapping;
+        results.extend(row.results);
+        for op in 0..6 {
+            if rep.fails[op].is_none() {
+                if let Some((j, m)) = &row.fails[op] {
+                    rep.fails[op] = Some((i, *j, m.clone()));
+                }
+            }
+        }
+    }
+    rep.distinct_results = results.len() as u64;
+    Ok(rep)
+}
+
+// ---------------------------------------------------------------------------------------------
+// per-capacity driver
+
+/// Violations, at most one per check family (the first in enumeration order: N ascending, BFS order).
+struct Fams {
+    seen: BTreeSet<String>,
+}
+
+impl Fams {
+    fn report(&mut self, run: &mut Run, family: String, v: Violation) {
+        if self.seen.insert(family) {
+            run.violation(v);
+        }
+    }
+}
+
+fn family_of(found: &Found) -> String {
+    if let (Some(i), Some(j)) = (found.message.find('['), found.message.find(']')) {
+        if i < j {
+            return found.message[i + 1..j].to_string();
+        }
+    }
+    let last: Option<Act> = found.history.last().and_then(|v| serde_json::from_value(v.clone()).ok());
+    format!("{}.panic", last.as_ref().map(kind_of).unwrap_or("unknown"))
+}
+
+#[derive(Default)]
+struct Totals {
+    states: u64,
+    transitions: u64,
+    sweep_states: u64,
+    sweep_transitions: u64,
+    pair_evals: u64,
+    pairs: u64,
+    all_closed: bool,
+}
+
+fn closure_violation(run: &mut Run, fams: &mut Fams, n: usize, alphabet: &str, f: &Found) {
+    let fam = family_of(f);
+    let sig = format!("closure:{fam}:N={n}:{alphabet}:{}", serde_json::to_string(&f.history).unwrap());
+    let summary = format!("Bitset<{n}> after {}: {}", serde_json::to_string(&f.history).unwrap(), f.message);
+    fams.report(run, format!("closure:{fam}"), Violation::new(sig, summary, json!({"kind": "closure", "n": n, "alphabet": alphabet, "history": f.history})));
+}
+
+/// Every history of at most `depth` actions over the FULL position alphabet (every index 0..64N).
+fn sweep<const N: usize>(run: &mut Run, fams: &mut Fams, tot: &mut Totals, ev: &mut serde_json::Map<String, Value>, depth: usize, wall_cap: f64) {
+    if depth == 0 {
+        return;
+    }
+    let sysf = Sys::<N>::full();
+    let cfgf = ExploreCfg { max_depth: Some(depth), max_states: 5_000_000, wall_cap_s: wall_cap };
+    let rf = explore(&sysf, &cfgf);
+    tot.sweep_states += rf.states;
+    tot.sweep_transitions += rf.transitions;
+    let mut j = rf.to_json();
+    j["depth_bound"] = json!(depth);
+    j["note"] = json!("NOT a closure: every history of at most depth_bound actions with set/remove/flip on EVERY index 0..64N (plus clear, not, clone) from every constructor");
+    ev.insert("full_alphabet_bounded_sweep".into(), j);
+    if let Some(f) = &rf.violation {
+        closure_violation(run, fams, N, "full", f);
+    } else if rf.completed_depth < depth && !rf.closed {
+        tot.all_closed = false;
+        ev.insert("full_alphabet_bounded_sweep_incomplete".into(), json!(rf.cap_hit));
+    } else if rf.transitions == 0 || rf.per_kind.get("flip").copied().unwrap_or(0) < (6 * 64 * N) as u64 {
+        run.machinery_failure(&format!("N={N}: the full-alphabet sweep did not apply flip at every index from every constructor state"));
+    }
+}
+
+/// `full` = closure + sweep + operator pairs; otherwise only the bounded full-alphabet sweep.
+fn run_n<const N: usize>(run: &mut Run, fams: &mut Fams, tot: &mut Totals, full: bool, sweep_depth: usize, wall_cap: f64) {
+    let mut ev = serde_json::Map::new();
+    let pos = boundary_positions(N);
+    ev.insert("bits".into(), json!(64 * N));
+    ev.insert("boundary_positions".into(), json!(pos));
+    if !full {
+        ev.insert("scope".into(), json!("bounded full-alphabet sweep only at this tier (no closure, no operator pairs)"));
+        sweep::<N>(run, fams, tot, &mut ev, sweep_depth, wall_cap);
+        run.cov(&format!("N={N}"), Value::Object(ev));
+        return;
+    }
+
+    // 1. closure over the boundary alphabet
+    let sys = Sys::<N>::boundary();
+    let cfg = ExploreCfg { max_depth: None, max_states: 5_000_000, wall_cap_s: wall_cap };
+    let r = explore(&sys, &cfg);
+    tot.states += r.states;
+    tot.transitions += r.transitions;
+    tot.all_closed &= r.closed && r.violation.is_none();
+    ev.insert("closure".into(), r.to_json());
+    for h in r.sample_histories.iter().take(2) {
+        run.sample(json!({"N": N, "history_reaching_a_state": h}));
+    }
+    if let Some(f) = &r.violation {
+        closure_violation(run, fams, N, "boundary", f);
+    }
+
+    // operand patterns: model BFS order (identical to the explorer's order when the closure held)
+    let pats_m = model_bfs(N, &pos);
+    if r.violation.is_none() && r.closed {
+        if r.states != pats_m.len() as u64 {
+            run.machinery_failure(&format!("N={N}: the explorer closed with {} states but the model alone reaches {} patterns", r.states, pats_m.len()));
+        }
+        if (r.states as usize) < (1usize << pos.len()) {
+            run.machinery_failure(&format!("N={N}: fewer states than subsets of the position alphabet"));
+        }
+        for k in ["set", "remove", "flip", "clear", "not", "clone"] {
+            if r.per_kind.get(k).copied().unwrap_or(0) == 0 {
+                run.machinery_failure(&format!("N={N}: action kind {k} was never applied"));
+            }
+        }
+        let words: Vec<Vec<u64>> = pats_m.iter().map(|m| model_words(m)).collect();
+        let has = |f: &dyn Fn(&Vec<u64>) -> bool| words.iter().any(|w| f(w));
+        if !has(&|w| w.iter().all(|&x| x == 0)) || !has(&|w| w.iter().all(|&x| x == u64::MAX)) {
+            run.machinery_failure(&format!("N={N}: the empty or the full set was not reached"));
+        }
+        for &p in &pos {
+            if !has(&|w| (w[p / 64] >> (p % 64)) & 1 == 1) || !has(&|w| (w[p / 64] >> (p % 64)) & 1 == 0) {
+                run.machinery_failure(&format!("N={N}: position {p} was not seen both set and clear"));
+            }
+        }
+        if N >= 2 {
+            // the iterator has to skip an empty first word and find a member in the last one;
+            // members on both sides of the 63/64 boundary
+            if !has(&|w| w[0] == 0 && w[N - 1] != 0) || !has(&|w| (w[0] >> 63) & 1 == 1 && w[1] & 1 == 1) {
+                run.machinery_failure(&format!("N={N}: no state with an empty first word and a non-empty last word, or none with 63 and 64 both set"));
+            }
+        }
+    }
+
+    // 2. bounded sweep with the full position alphabet
+    sweep::<N>(run, fams, tot, &mut ev, sweep_depth, wall_cap);
+
+    // 3. binary operators on all ordered pairs of the first K reached patterns
+    let k = pats_m.len().min(PAIR_CAP);
+    let pats: Vec<Vec<u64>> = pats_m[..k].iter().map(|m| model_words(m)).collect();
+    let pr = match pairs::<N>(&pats) {
+        Ok(pr) => pr,
+        Err((i, m)) => {
+            let w = &pats[i];
+            ev.insert("binary_operators".into(), json!({"skipped": "operands cannot be constructed by set(): reported as family `build`", "operator_evaluations": 0}));
+            let replay = json!({"kind": "build", "n": N, "a": w.iter().map(|x| format!("{x:#x}")).collect::<Vec<_>>()});
+            fams.report(run, "build".into(), Violation::new(format!("build:N={N}:a={}", hex(w)), format!("Bitset<{N}>: {m}"), replay));
+            run.cov(&format!("N={N}"), Value::Object(ev));
+            return;
+        }
+    };
+    tot.pair_evals += pr.evals;
+    tot.pairs += pr.pairs;
+    ev.insert(
+        "binary_operators".into(),
+        json!({
+            "reached_patterns": pats_m.len(),
+            "operands_used": pr.operands,
+            "cap": PAIR_CAP,
+            "cap_applied": pats_m.len() > PAIR_CAP,
+            "ordered_pairs": pr.pairs,
+            "operator_evaluations": pr.evals,
+            "pairs_properly_overlapping": pr.overlapping,
+            "distinct_results": pr.distinct_results,
+        }),
+    );
+    if pr.fails.iter().all(|f| f.is_none()) && (pr.overlapping == 0 || pr.distinct_results < 3 * k as u64 / 2) {
+        run.machinery_failure(&format!("N={N}: the operand pairs are implausibly uniform (overlapping {}, distinct results {})", pr.overlapping, pr.distinct_results));
+    }
+    for op in 0..6 {
+        if let Some((i, j, m)) = &pr.fails[op] {
+            let (wa, wb) = (&pats[*i], &pats[*j]);
+            let sig = format!("{}:N={N}:a={}:b={}", OPS[op], hex(wa), hex(wb));
+            let replay = json!({"kind": "pair", "n": N, "op": OPS[op],
+                "a": wa.iter().map(|x| format!("{x:#x}")).collect::<Vec<_>>(),
+                "b": wb.iter().map(|x| format!("{x:#x}")).collect::<Vec<_>>()});
+            // the summary must be what the plain re-execution says
+            let summary = pair_plain::<N>(op, wa, wb).err().unwrap_or_else(|| m.clone());
+            fams.report(run, OPS[op].to_string(), Violation::new(sig, format!("Bitset<{N}>: {summary}"), replay));
+        }
+    }
+    // one pair written out
+    if k >= 2 {
+        let (i, j) = (k - 1, k / 2);
+        if let Ok(Ok(w)) = catch(|| pair_case::<N>(2, &build::<N>(&pats[i]), &pats[i], &build::<N>(&pats[j]), &pats[j])) {
+            run.sample(json!({"N": N, "a": hex(&pats[i]), "b": hex(&pats[j]), "a ^ b (observed through test)": hex(&w)}));
+        }
+    }
+    run.cov(&format!("N={N}"), Value::Object(ev));
+}
+
+// ---------------------------------------------------------------------------------------------
+// plain re-execution
+
+fn parse_words(v: &Value) -> Vec<u64> {
+    v.as_array()
+        .map(|a| a.iter().map(|x| u64::from_str_radix(x.as_str().unwrap_or("").trim_start_matches("0x"), 16).unwrap_or_else(|_| bad_replay())).collect())
+        .unwrap_or_else(|| bad_replay())
+}
+
+fn bad_replay<T>() -> T {
+    eprintln!("replay: malformed replay value");
+    std::process::exit(2)
+}
+
+fn confirm_n<const N: usize>(v: &Value) -> Result<(), String> {
+    if v["kind"] == "build" {
+        let wa = parse_words(&v["a"]);
+        if wa.len() != N {
+            bad_replay::<()>();
+        }
+        return build_checked::<N>(&wa).map(|_| ()).map_err(|m| format!("Bitset<{N}>: {m}"));
+    }
+    if v["kind"] == "pair" {
+        let op = OPS.iter().position(|o| v["op"] == *o).unwrap_or_else(|| bad_replay());
+        let (wa, wb) = (parse_words(&v["a"]), parse_words(&v["b"]));
+        if wa.len() != N || wb.len() != N {
+            bad_replay::<()>();
+        }
+        return pair_plain::<N>(op, &wa, &wb).map_err(|m| format!("Bitset<{N}>: {m}"));
+    }
+    let hist: Vec<Value> = v["history"].as_array().cloned().unwrap_or_else(|| bad_replay());
+    let sys = Sys::<N>::named(v["alphabet"].as_str().unwrap_or("boundary"));
+    replay_history(&sys, &hist).map_err(|m| format!("Bitset<{N}> after {}: {m}", serde_json::to_string(&hist).unwrap()))
+}
+
+fn confirm(v: &Value) -> Result<(), String> {
+    match v["n"].as_u64() {
+        Some(1) => confirm_n::<1>(v),
+        Some(2) => confirm_n::<2>(v),
+        Some(3) => confirm_n::<3>(v),
+        Some(10) => confirm_n::<10>(v),
+        _ => bad_replay(),
+    }
+}
+
+fn watchdog(prop: String) {
+    std::thread::spawn(move || {
+        let (mut last, mut stalled) = (u64::MAX, 0u64);
+        loop {
+            std::thread::sleep(std::time::Duration::from_secs(5));
+            let p = PROGRESS.load(Ordering::Relaxed);
+            if p != last {
+                last = p;
+                stalled = 0;
+            } else {
+                stalled += 5;
+                if stalled >= 120 {
+                    let msg = format!(
+                        "MACHINERY-FAILURE property={prop} engine=bitset no call into the code under test returned for {stalled} s: a bitset operation (most likely iter_bits().next()) does not terminate; no verdict"
+                    );
+                    println!("{msg}");
+                    eprintln!("{msg}");
+                    std::process::exit(2);
+                }
+            }
+        }
+    });
+}
+
+fn main() {
+    let args = Args::parse();
+    quiet_panics();
+    watchdog(args.prop.clone());
+    if args.replay.is_some() {
+        Run::replay_main(&args, &confirm);
+    }
+    let mut run = Run::new(&args, "bitset", "model_checking");
+    let mut fams = Fams { seen: BTreeSet::new() };
+    let mut tot = Totals { all_closed: true, ..Default::default() };
+    let thorough = args.tier == Tier::Thorough;
+    let wall_cap = args.tier.pick(25.0, 500.0);
+
+    run_n::<1>(&mut run, &mut fams, &mut tot, true, args.tier.pick(2, 3), wall_cap);
+    run_n::<2>(&mut run, &mut fams, &mut tot, true, 2, wall_cap);
+    run_n::<3>(&mut run, &mut fams, &mut tot, true, args.tier.pick(1, 2), wall_cap);
+    // N = 10: closure and operator pairs only in the thorough tier; the depth-1 sweep over all 640
+    // indices (which includes `!new()`, 640 members) runs in both
+    run_n::<10>(&mut run, &mut fams, &mut tot, thorough, 1, wall_cap);
+
+    run.cov("capacities_closure", if thorough { json!([1, 2, 3, 10]) } else { json!([1, 2, 3]) });
+    run.cov("capacities_bounded_sweep", json!([1, 2, 3, 10]));
+    run.cov("states", tot.states);
+    run.cov("transitions", tot.transitions);
+    run.cov("traces_validated_against_impl", tot.transitions);
+    run.cov("bounded_sweep_states", tot.sweep_states);
+    run.cov("bounded_sweep_transitions", tot.sweep_transitions);
+    run.cov("binary_operator_ordered_pairs", tot.pairs);
+    run.cov("binary_operator_evaluations", tot.pair_evals);
+    run.cov("exhaustive", tot.all_closed && !run.has_violations());
+    run.cov("exhaustive_scope", "the closures over the boundary alphabet P_N (every capacity listed) and the operator pairs over the stated operands; the full-alphabet sweep is complete only to its depth bound");
+    run.cov("initial_words", json!(INIT_WORDS.iter().map(|w| format!("{w:#x}")).collect::<Vec<_>>()));
+    run.cov(
+        "rule",
+        "per capacity N: closure BFS over the real Bitset<N> from new(), default(), from_u64(w) (six words) under set/remove/flip at every position of \
+         P_N = {0,1,31,62,63,64,65,127,128,64N-2,64N-1} below 64N, clear, !x, clone-and-replace, until no new state appears; after every transition \
+         test(i) for every i < 64N, count, iter_bits (exact list, at most 64N+1 items pulled), == / != against a bitset rebuilt by set() and against \
+         one-bit neighbours at every position of P_N, Display and Debug are compared with a Vec<bool> model; state identity = model bits + Display \
+         rendering (no field dropped). Then & | ^ and &= |= ^= on all ordered pairs (self-pairs included) of the first min(states,1500) patterns in \
+         BFS order, operands rebuilt from the pattern by set(); results and operands read back through test(i) for every i. The full-alphabet sweep \
+         (every index 0..64N) is depth-bounded and reported separately.",
+    );
+    run.assume("Display of a Bitset together with test(i) for every i < 64N exposes its complete state (the struct has the single field `data`); state identity uses the model bits plus the Display rendering");
+    run.assume("histories over positions outside P_N are covered only to the stated depth of the full-alphabet sweep; capacities other than those listed are not explored");
+    run.assume("a call into the library that never returns cannot be decided without a clock: a watchdog turns a 120 s stall into exit 2 (machinery), never into a verdict");
+    run.finish(&confirm)
+}
